@@ -33,11 +33,17 @@ def to_py(t):
 
 def check_clock(start, end, pre, post, acc):
     from qstrader.simulation.daily_bday import DailyBusinessDaySimulationEngine
-    eng = DailyBusinessDaySimulationEngine(pts(start), pts(end), pre_market=pre, post_market=post)
-    got = [(to_py(e.ts), e.event_type) for e in eng]
+    case = {'start': str(start), 'end': str(end), 'pre_market': pre, 'post_market': post}
+    try:
+        eng = DailyBusinessDaySimulationEngine(pts(start), pts(end), pre_market=pre, post_market=post)
+        got = [(to_py(e.ts), e.event_type) for e in eng]
+    except Violation:
+        raise
+    except Exception as e:
+        raise Violation('C12', 'valid-range-raised/%s' % type(e).__name__,
+                        'the clock for the valid range %s raised %r' % (case, e), case)
     want = cal.clock(start, end, pre, post)
     acc.count('C12:events_observed', len(got))
-    case = {'start': str(start), 'end': str(end), 'pre_market': pre, 'post_market': post}
     for i in range(1, len(got)):
         if not got[i - 1][0] < got[i][0]:
             raise Violation('C12', 'not-increasing', 'events %s and %s are not in strictly increasing order'
@@ -170,7 +176,11 @@ def _sched(kind, start, end, weekday=None, pre=False):
 
 def check_schedule(kind, start, end, weekday, pre, clock_set, acc):
     case = {'kind': kind, 'start': str(start), 'end': str(end), 'weekday': weekday, 'pre_market': pre}
-    got_raw = _sched(kind, start, end, weekday, pre)
+    try:
+        got_raw = _sched(kind, start, end, weekday, pre)
+    except Exception as e:
+        raise Violation('C13', 'valid-range-raised/%s/%s' % (kind, type(e).__name__),
+                        'the %s schedule for the valid range %s raised %r' % (kind, case, e), case)
     try:
         got = [to_py(t) for t in got_raw]
     except Violation:
@@ -222,8 +232,12 @@ def check_bad_weekday(name, start, end, acc):
 
 def clock_instants(start, end):
     from qstrader.simulation.daily_bday import DailyBusinessDaySimulationEngine
-    eng = DailyBusinessDaySimulationEngine(pts(start), pts(end), pre_market=False, post_market=False)
-    return {to_py(e.ts) for e in eng}
+    try:
+        eng = DailyBusinessDaySimulationEngine(pts(start), pts(end), pre_market=False, post_market=False)
+        return {to_py(e.ts) for e in eng}
+    except Exception as e:
+        raise Violation('C13', 'clock-raised/%s' % type(e).__name__, 'the simulation clock for %s .. %s raised %r'
+                        % (start, end, e), {'kind': 'daily', 'start': str(start), 'end': str(end)})
 
 
 def all_schedules(start, end, acc, rng=None, full=True):
